@@ -17,6 +17,9 @@ pub struct Client {
     server_name: ServerName<'static>,
     tls_config: Arc<tokio_rustls::TlsConnector>,
     padding: Arc<PaddingFactory>,
+    /// `PaddingFactory::default_generation()` when this client was created: once a server has
+    /// pushed a scheme (the default was replaced), new sessions start from the pushed scheme.
+    padding_generation: u64,
     session_pool: Arc<SessionPool>,
     pool_config: SessionPoolConfig,
 }
@@ -60,8 +63,19 @@ impl Client {
             server_name,
             tls_config,
             padding,
+            padding_generation: PaddingFactory::default_generation(),
             session_pool,
             pool_config,
+        }
+    }
+
+    /// The padding scheme a new session starts from: the configured one, or the scheme a
+    /// server has pushed since (so that it is announced and not pushed again).
+    fn current_padding(&self) -> Arc<PaddingFactory> {
+        if PaddingFactory::default_generation() != self.padding_generation {
+            PaddingFactory::default()
+        } else {
+            self.padding.clone()
         }
     }
 
@@ -285,7 +299,8 @@ impl Client {
         // Split TLS stream into reader and writer
         let (reader, mut writer) = tokio::io::split(tls_stream);
         tracing::trace!("[Client] Sending authentication");
-        send_authentication(&mut writer, &self.password_hash, &self.padding).await?;
+        let padding = self.current_padding();
+        send_authentication(&mut writer, &self.password_hash, &padding).await?;
         tracing::debug!("[Client] Authentication sent successfully");
 
         // Create session with reader and writer
@@ -296,7 +311,7 @@ impl Client {
         let session = Arc::new(Session::new_client(
             reader,
             writer,
-            self.padding.clone(),
+            padding,
             Some(heartbeat_config),
         ));
 
